@@ -25,6 +25,7 @@ Prog_w12  == (1 :> Rep(O("push", 1), 3)) @@ (3 :> Rep(O("pop", 1), 2)) @@ (4 :> 
 Prog_b    == (1 :> <<O("push", 2)>>) @@ (2 :> Rep(O("push", 1), 2)) @@ (3 :> <<O("pop", 2), O("pop", 1)>>) @@ (4 :> <<O("pop", 1), O("pop", 2)>>)
 Prog_b2   == (1 :> <<O("push", 2), O("push", 1)>>) @@ (2 :> <<O("push", 1), O("push", 2)>>) @@ (3 :> <<O("pop", 2), O("pop", 2)>>) @@ (4 :> <<O("pop", 1), O("pop", 2)>>)
 Prog_w_b  == (1 :> <<O("push", 2), O("push", 1), O("push", 2)>>) @@ (3 :> <<O("pop", 1), O("pop", 2), O("pop", 2), O("pop", 1)>>)
+Prog_w_b4 == (1 :> <<O("push", 3), O("push", 2), O("push", 3)>>) @@ (3 :> <<O("pop", 2), O("pop", 3), O("pop", 3), O("pop", 1)>>)
 Prog_b4   == (1 :> <<O("push", 3), O("push", 2)>>) @@ (2 :> <<O("push", 2), O("push", 1)>>) @@ (3 :> <<O("pop", 3), O("pop", 1)>>) @@ (4 :> <<O("pop", 2), O("pop", 2)>>)
 \* SPSC 1x1: single and batch calls, 4-5 values
 Prog_s    == (1 :> <<O("push", 1), O("pushn", 2), O("push", 1), O("pushn", 1)>>) @@ (3 :> <<O("pop", 1), O("popn", 2), O("pop", 1), O("popn", 2), O("pop", 1)>>)
